@@ -241,9 +241,16 @@ def c11_dataset(kw):
         ns = make_dst(kw)
         ds.attach_taxon_namespace(ns)
         a = ds.new_tree_list()
-        b = ds.new_char_matrix("dna")
+        mtype = ["dna", dendropy.DnaCharacterMatrix, "standard", dendropy.ProteinCharacterMatrix, "continuous"][choose(kw["sel"], 5)]
+        b = ds.new_char_matrix(mtype)
         if a.taxon_namespace is not ns or b.taxon_namespace is not ns:
             return "new-component-outside-the-attached-namespace"
+        if len(ds.taxon_namespaces) != 1 or ds.taxon_namespaces[0] is not ns:
+            return "attached-dataset-gained-a-namespace"
+        b.new_sequence(ns.require_taxon(label=l0[0]))
+        for t in b:
+            if t not in ns:
+                return "sequence-taxon-outside-the-attached-namespace"
         try:
             ds.new_tree_list(taxon_namespace=dendropy.TaxonNamespace())
             return "attached-dataset-accepted-foreign-namespace"
@@ -300,7 +307,7 @@ def classify(inp):
     return inp.get("op", "")
 
 
-BUDGET = dict(quick=220, thorough=1400)
+BUDGET = dict(quick=220, thorough=1000)
 
 
 def harnesses(tier):
